@@ -259,6 +259,7 @@ def finish(prop, tier, seed, P, agg, kf, baseline, wall, t0, extra):
             'simulated_time': 'the system under test has no clock; simulated time is the event sequence number: %d operation steps' % agg['sim_steps'],
             'faults_fired': faults,
             'reach': reach,
+            'oracle_judgements': {k: v for k, v in agg['stats'].items() if len(k) > 3 and k[0] == 'c' and k[1:3].isdigit() and k[3] == '.'},
             'op_histogram': {k[3:]: v for k, v in agg['stats'].items() if k.startswith('op.')},
             'exceptions_seen': {k[4:]: v for k, v in agg['stats'].items() if k.startswith('exc.')},
             'distinct_states': len(agg['states']),
